@@ -33,6 +33,11 @@ impl Watch {
     /// Feed one receive buffer. The application loops `recv` until the cursor is exhausted
     /// and stops reading once a close was requested. Returns the event lists per call.
     pub fn feed(&mut self, chunk: &[u8]) -> Vec<Vec<Ev>> {
+        if let Some(c) = self.calls.as_mut() {
+            if !self.want_close && self.viol.is_none() {
+                c.push(WCall::Feed(chunk.to_vec()));
+            }
+        }
         let mut out = vec![];
         let mut pos = 0usize;
         while pos < chunk.len() && !self.failed() {
